@@ -78,6 +78,15 @@ class PE(BinFormat):
 
     def __init__(self, data):
         self.data = data
+        try:
+            self.__parse(data)
+        except (PEError, StructureError):
+            raise
+        except Exception as e:
+            # truncated or corrupted tables (bad RVAs, sizes, encodings...)
+            raise PEError("malformed PE file (%s)" % repr(e))
+
+    def __parse(self, data):
         # parse DOS header:
         try:
             self.DOS = DOSHdr(data)
